@@ -1063,7 +1063,7 @@ pub fn execute(cfg: &WorldCfg, case: &Case) -> Result<Info, Violation> {
 
 const WORLD_DOCS: &[&str] = &[
     "PaddedVecU64", "PaddedZ32", "PaddedStr", "DropProbeD", "VecU64", "BoxU32", "VecZ32", "PersonD", "DeepA", "DeepB", "DeepC", "VecString", "Str", "VecZeroP", "OptVecU64", "EnumDVec", "VecVecU32", "ArrString", "U64",
-    "VecU8", "VecU128", "IncrA", "IncrB", "IncrD", "VecZ64", "DeepD", "TupleSD", "ArrU64x4", "E9D", "BoundString", "CfStrVec", "ConstGen3", "PhantomD", "VecPair", "Unit",
+    "VecU8", "VecU128", "IncrA", "IncrB", "IncrD", "VecZ64", "DeepD", "HolderA", "HolderB", "HolderD", "MiscA", "MiscB", "MiscC", "TupleSD", "ArrU64x4", "E9D", "BoundString", "CfStrVec", "ConstGen3", "PhantomD", "VecPair", "Unit",
 ];
 
 fn pick_vi(r: &mut Rng, max_vi: u64) -> u64 {
